@@ -1,3 +1,166 @@
-From ST Require Import Base.Outcome Codec.Spec Codec.Model.
-Theorem placeholder : True. Proof. exact I. Qed.
-Print Assumptions placeholder.
+(* Properties/C14.v — hex and base64 encodings are standard and decode back to
+   the original bytes.  STATEMENTS ONLY: each theorem is closed by `exact` of a
+   lemma proved under Codec/Proofs*.v and followed by Print Assumptions.
+
+   Model  = Codec/Model.v   (include/st_codecs_priv.h, st_codecs.h transcribed;
+                             tables = Gen/Tables.v, regenerated from the header)
+   Spec   = Codec/Spec.v    (hex_spec: digits "0123456789abcdef"[b/16], [b mod 16];
+                             b64_spec: RFC 4648 section 4 through the 24-bit group number)
+   All theorems quantify over every byte list `b` (bytes_ok b: every unit < 256,
+   which a `const void*` + size input satisfies by construction), of every length. *)
+From Coq Require Import NArith ZArith List Bool.
+From ST Require Import Base.Outcome Base.Units Gen.Tables Codec.Spec Codec.Model.
+From ST Require Codec.ProofsTables Codec.ProofsSpec Codec.ProofsEnc Codec.ProofsC14 Codec.ProofsExamples.
+Import ListNotations.
+Local Open Scope N_scope.
+
+(* ---------------- encoders = the standard encodings ---------------- *)
+Theorem hex_encode_is_spec : forall b, bytes_ok b = true ->
+  hex_encode (Some b) (length b) = Ok (hex_spec b).
+Proof. exact ProofsEnc.hex_encode_is_spec. Qed.
+Print Assumptions hex_encode_is_spec.
+
+Theorem hex_encode_size0 : forall d, hex_encode d 0 = Ok [].
+Proof. exact ProofsEnc.hex_encode_size0. Qed.
+Print Assumptions hex_encode_size0.
+
+Theorem hex_encode_null : forall n, n <> 0%nat -> hex_encode None n = Throw InvalidArgument.
+Proof. exact ProofsEnc.hex_encode_null. Qed.
+Print Assumptions hex_encode_null.
+
+Theorem b64_encode_is_spec : forall b, bytes_ok b = true ->
+  base64_encode (Some b) (length b) = Ok (b64_spec b).
+Proof. exact ProofsEnc.b64_encode_is_spec. Qed.
+Print Assumptions b64_encode_is_spec.
+
+Theorem b64_encode_size0 : forall d, base64_encode d 0 = Ok [].
+Proof. exact ProofsEnc.b64_encode_size0. Qed.
+Print Assumptions b64_encode_size0.
+
+Theorem b64_encode_null : forall n, n <> 0%nat -> base64_encode None n = Throw InvalidArgument.
+Proof. exact ProofsEnc.b64_encode_null. Qed.
+Print Assumptions b64_encode_null.
+
+(* ---------------- lengths 2n and 4*ceil(n/3) ---------------- *)
+Theorem hex_length : forall b, length (hex_spec b) = (2 * length b)%nat.
+Proof. exact ProofsSpec.hex_length. Qed.
+Print Assumptions hex_length.
+
+Theorem b64_length : forall b, length (b64_spec b) = (4 * ((length b + 2) / 3))%nat.
+Proof. exact ProofsSpec.b64_length. Qed.
+Print Assumptions b64_length.
+
+(* ---------------- decoding gives back the original bytes ---------------- *)
+Theorem hex_round_trip : forall b, bytes_ok b = true -> hex_decode (hex_spec b) = Ok b.
+Proof. exact ProofsC14.hex_round_trip. Qed.
+Print Assumptions hex_round_trip.
+
+Theorem hex_round_trip_buf : forall b osize, bytes_ok b = true -> (length b <= osize)%nat ->
+  hex_decode_buf (hex_spec b) true osize = Ok (Z.of_nat (length b), b).
+Proof. exact ProofsC14.hex_round_trip_buf. Qed.
+Print Assumptions hex_round_trip_buf.
+
+Theorem hex_upper : forall b, bytes_ok b = true -> hex_decode (map toupper (hex_spec b)) = Ok b.
+Proof. exact ProofsC14.hex_upper. Qed.
+Print Assumptions hex_upper.
+
+Theorem b64_round_trip : forall b, bytes_ok b = true -> base64_decode (b64_spec b) = Ok b.
+Proof. exact ProofsC14.b64_round_trip. Qed.
+Print Assumptions b64_round_trip.
+
+Theorem b64_round_trip_buf : forall b osize, bytes_ok b = true -> (length b <= osize)%nat ->
+  b64_decode_buf (b64_spec b) true osize = Ok (Z.of_nat (length b), b).
+Proof. exact ProofsC14.b64_round_trip_buf. Qed.
+Print Assumptions b64_round_trip_buf.
+
+(* the same, end to end through the model's own encoders *)
+Theorem hex_model_round_trip : forall b, bytes_ok b = true ->
+  exists e, hex_encode (Some b) (length b) = Ok e /\ hex_decode e = Ok b /\
+            hex_decode (map toupper e) = Ok b.
+Proof. exact ProofsC14.hex_model_round_trip. Qed.
+Print Assumptions hex_model_round_trip.
+
+Theorem b64_model_round_trip : forall b, bytes_ok b = true ->
+  exists e, base64_encode (Some b) (length b) = Ok e /\ base64_decode e = Ok b.
+Proof. exact ProofsC14.b64_model_round_trip. Qed.
+Print Assumptions b64_model_round_trip.
+
+(* the Spec's own decoder inverts the Spec's encoder (no model involved) *)
+Theorem b64_spec_round_trip : forall b, bytes_ok b = true -> b64_decode_spec (b64_spec b) = Some b.
+Proof. exact ProofsSpec.b64_spec_round_trip. Qed.
+Print Assumptions b64_spec_round_trip.
+
+Theorem hex_spec_round_trip : forall b, bytes_ok b = true -> hex_decode_spec (hex_spec b) = Some b.
+Proof. exact ProofsSpec.hex_spec_round_trip. Qed.
+Print Assumptions hex_spec_round_trip.
+
+(* ---------------- facts over the GENERATED tables (finite sweeps) ----------------
+   These stop checking when a table entry in st_codecs_priv.h is edited.          *)
+Theorem tables_sizes :
+  length hex_chars = 16%nat /\ length hex_values = 256%nat /\
+  length b64_chars = 64%nat /\ length b64_values = 256%nat.
+Proof. exact ProofsC14.tables_sizes. Qed.
+Print Assumptions tables_sizes.
+
+Theorem hex_chars_standard : forall i, i < 16 -> tblN hex_chars i = Ok (hex_digit i).
+Proof. exact ProofsTables.hex_chars_ok. Qed.
+Print Assumptions hex_chars_standard.
+
+Theorem b64_chars_standard : forall i, i < 64 -> tblN b64_chars i = Ok (b64_char i).
+Proof. exact ProofsTables.b64_chars_ok. Qed.
+Print Assumptions b64_chars_standard.
+
+(* value tables: the digit value inside the alphabet, -1 exactly outside it *)
+Theorem hex_values_standard : forall c, c < 256 ->
+  tbl hex_values c = Ok (match hexval c with Some v => Z.of_N v | None => (-1)%Z end).
+Proof. exact ProofsTables.hex_values_ok. Qed.
+Print Assumptions hex_values_standard.
+
+Theorem b64_values_standard : forall c, c < 256 ->
+  tbl b64_values c = Ok (match b64val c with Some v => Z.of_N v | None => (-1)%Z end).
+Proof. exact ProofsTables.b64_values_ok. Qed.
+Print Assumptions b64_values_standard.
+
+Theorem hex_values_of_chars : forall i, i < 16 ->
+  exists c, tblN hex_chars i = Ok c /\ tbl hex_values c = Ok (Z.of_N i).
+Proof. exact ProofsTables.hex_values_of_chars. Qed.
+Print Assumptions hex_values_of_chars.
+
+Theorem hex_values_of_upper : forall i, i < 16 ->
+  exists c, tblN hex_chars i = Ok c /\ tbl hex_values (toupper c) = Ok (Z.of_N i).
+Proof. exact ProofsTables.hex_values_of_upper. Qed.
+Print Assumptions hex_values_of_upper.
+
+Theorem b64_values_of_chars : forall i, i < 64 ->
+  exists c, tblN b64_chars i = Ok c /\ tbl b64_values c = Ok (Z.of_N i).
+Proof. exact ProofsTables.b64_values_of_chars. Qed.
+Print Assumptions b64_values_of_chars.
+
+(* ---------------- anchors and non-vacuity ---------------- *)
+Example b64_Man : b64_spec [77; 97; 110] = [84; 87; 70; 117].                  (* "Man" -> "TWFu" *)
+Proof. exact ProofsExamples.b64_Man. Qed.
+Example rfc4648_f : b64_spec [102] = [90; 103; 61; 61].                         (* "Zg==" *)
+Proof. exact ProofsExamples.rfc_f. Qed.
+Example rfc4648_fo : b64_spec [102; 111] = [90; 109; 56; 61].                   (* "Zm8=" *)
+Proof. exact ProofsExamples.rfc_fo. Qed.
+Example rfc4648_foo : b64_spec [102; 111; 111] = [90; 109; 57; 118].            (* "Zm9v" *)
+Proof. exact ProofsExamples.rfc_foo. Qed.
+Example rfc4648_foob : b64_spec [102; 111; 111; 98] = [90; 109; 57; 118; 89; 103; 61; 61].
+Proof. exact ProofsExamples.rfc_foob. Qed.
+Example rfc4648_fooba : b64_spec [102; 111; 111; 98; 97] = [90; 109; 57; 118; 89; 109; 69; 61].
+Proof. exact ProofsExamples.rfc_fooba. Qed.
+Example rfc4648_foobar : b64_spec [102; 111; 111; 98; 97; 114] = [90; 109; 57; 118; 89; 109; 70; 121].
+Proof. exact ProofsExamples.rfc_foobar. Qed.
+Example hex_00ffab : hex_spec [0; 255; 171] = [48; 48; 102; 102; 97; 98].
+Proof. exact ProofsExamples.hex_00ffab. Qed.
+Example model_b64_foobar :
+  base64_encode (Some [102; 111; 111; 98; 97; 114]) 6 = Ok [90; 109; 57; 118; 89; 109; 70; 121].
+Proof. exact ProofsExamples.model_b64_foobar. Qed.
+Example model_hex_upper : hex_decode [48; 48; 70; 70; 65; 66] = Ok [0; 255; 171].
+Proof. exact ProofsExamples.model_hex_upper. Qed.
+Example hypotheses_satisfiable :
+  bytes_ok [102; 111; 111; 98; 97; 114] = true /\ [102; 111; 111; 98; 97; 114] <> [] /\
+  (length [102; 111; 111; 98; 97; 114] <= 6)%nat.
+Proof. exact ProofsExamples.nonvac_bytes. Qed.
+Example null_hypothesis_satisfiable : (3 <> 0)%nat.
+Proof. exact ProofsExamples.nonvac_null_ptr. Qed.
